@@ -1,28 +1,32 @@
 #!/bin/bash
-# tools/seedcheck.sh <ID> [check-ids...]: confirm a sub-agent's seeded change in its scratch worktree
-# (suite passes with it; demo fails with it and passes without), then run our checks against it in /repo.
+# tools/seedcheck.sh confirm <ID>            : in the sub-agent's scratch worktree: suite passes with the change; demo fails with it, passes without
+# tools/seedcheck.sh check <ID> <checks...>  : apply the patch to /repo, run our quick checks, undo
 set -u
-ID=$1; shift
+WHAT=$1; ID=$2; shift 2
 WT=/tmp/seed/$ID
 OUT=$WT/SEED_OUT
+[ -d $OUT ] || OUT=/verif/seeded/$ID
 LOG=/tmp/seed/$ID.confirm.log
-: > $LOG
-cd $WT || exit 2
-git checkout -q -- . 2>/dev/null
-git apply $OUT/patch.diff || { echo "patch does not apply"; exit 2; }
-echo "== suite with change" | tee -a $LOG
-( timeout 900 cargo test --workspace --no-fail-fast --offline 2>&1 | grep -E "^test result|FAILED|panicked|error" ) | tee -a $LOG
-echo "== demo with change (expect non-zero)" | tee -a $LOG
-( timeout 900 bash $OUT/demo.sh $WT >> $LOG 2>&1 ); echo "demo exit with change: $?" | tee -a $LOG
-git checkout -q -- .
-echo "== demo without change (expect 0)" | tee -a $LOG
-( timeout 900 bash $OUT/demo.sh $WT >> $LOG 2>&1 ); echo "demo exit without change: $?" | tee -a $LOG
+if [ $WHAT = confirm ]; then
+  : > $LOG
+  cd $WT || exit 2
+  git checkout -q -- . 2>/dev/null
+  git apply $OUT/patch.diff || { echo "patch does not apply"; exit 2; }
+  echo "== suite with change" | tee -a $LOG
+  ( timeout 900 cargo test --workspace --no-fail-fast --offline 2>&1 | grep -E "^test result|FAILED|panicked|^error" ) | tee -a $LOG
+  echo "== demo with change (expect non-zero)" | tee -a $LOG
+  ( timeout 1800 bash $OUT/demo.sh $WT >> $LOG 2>&1 ); echo "demo exit with change: $?" | tee -a $LOG
+  git checkout -q -- .
+  echo "== demo without change (expect 0)" | tee -a $LOG
+  ( timeout 1800 bash $OUT/demo.sh $WT >> $LOG 2>&1 ); echo "demo exit without change: $?" | tee -a $LOG
+  exit 0
+fi
 cd /verif
 [ -z "$(git -C /repo status --porcelain)" ] || { echo "/repo not clean"; exit 2; }
 git -C /repo apply $OUT/patch.diff || { echo "patch does not apply to /repo"; exit 2; }
+TIER=${TIER:-quick}
 for c in "$@"; do
-  echo "== ./check $c quick" | tee -a $LOG
-  ./check $c quick > /tmp/seed/$ID.$c.out 2>&1; echo "check $c exit: $?" | tee -a $LOG
-  grep -m2 -E "^\s+\[" /tmp/seed/$ID.$c.out | cut -c1-300 | tee -a $LOG
+  ./check $c $TIER > /tmp/seed/$ID.$c.out 2>&1; echo "check $c $TIER exit: $?"
+  grep -m2 -E "^\s+\[" /tmp/seed/$ID.$c.out | cut -c1-400
 done
 git -C /repo checkout -- .
